@@ -5,7 +5,7 @@ from .common import *   # noqa: F401,F403
 from . import C11 as c11
 from . import C01 as c01
 
-LEAF = ['Leaf_tick', 'Leaf_query', 'Leaf_bpm', 'Leaf_timed']      # translated leaf functions this property's model relies on (Tie/<name>.v)
+LEAF = ['Leaf_tick', 'Leaf_query', 'Leaf_bpm', 'Leaf_timed', 'Leaf_note', 'Leaf_build', 'Leaf_dispatch', 'Leaf_tracks']      # translated functions this property's model relies on (Tie/<name>.v)
 RULE = ("(a) tempo maps with extreme accelerations/decelerations (n alternating 1 <-> 10^9), sub-microsecond ticks (BPM x resolution up to 10^12), and ordinary maps; ascending runs of "
         "consecutive ticks straddling 1-5 tempo boundaries plus random ticks (<= 60 per map), queried through timestamp_at_tick_no_optimize_return; judged: non-decreasing, equal ticks equal "
         "times, and strictly increasing whenever n x resolution <= 3*10^10 at every tempo (and the run lies in C01's domain); "
@@ -82,13 +82,13 @@ def make_c(rng):
         return b + ["%d = S 2 %d" % (t, rng.choice([0, 3])) for t in at(2)] + ["%d = E solo" % t for t in at(1)]
     text = chart_text(res=R, sync=sync, events=ev, tracks=[("ExpertSingle", body()), ("HardDoubleBass", body()), ("EasyDrums", body())])
     ch, exc, out = parse_case(text)
-    return dict(case=dict(kind="chart", text=text), in_term="(%s, %s)" % (coq_bool(not headless), parse_in_term(text)), out_term=out,
+    return dict(case=dict(kind="chart", text=text, wf=not headless), in_term="(%s, %s)" % (coq_bool(not headless), parse_in_term(text)), out_term=out,
                 nontrivial=len(tm) >= 2, tags=["c:" + mode, "c:impl_error" if exc is not None else "c:impl_ok"], signature="C12c:" + key_of(text))
 
 
 def remake_c(c):
     ch, exc, out = parse_case(c["text"])
-    return dict(case=c, in_term="(true, %s)" % parse_in_term(c["text"]), out_term=out, nontrivial=True, tags=["c:replay"], signature="C12c:" + key_of(c["text"]))
+    return dict(case=c, in_term="(%s, %s)" % (coq_bool(c.get("wf", True)), parse_in_term(c["text"])), out_term=out, nontrivial=True, tags=["c:replay"], signature="C12c:" + key_of(c["text"]))
 
 
 def run(ctx, only=None):
